@@ -195,6 +195,15 @@ def run(ctx):
             i = hs.index("end")
             hs = hs[:i] + ["json mid 0 2", "result mid"] + hs[i:]
             cases.append(("hostile-word-%s#%d" % (name, len(cases)), ["mark __case__"] + hs))
+        # answers that change within one utterance: model histories (FsgSearchAbs) replace the search's history table
+        # between queries, so a hypothesis with words is followed by one of fillers only or none, and back
+        from checks import synhist
+        gms, hs = synhist.export(ctx)
+        scfg = {"hmm": os.path.join(sut.REPO, "model", "en-us"), "dict": os.path.join(sut.REPO, "tests", "data", "turtle.dic"),
+                "loglevel": "FATAL"}
+        for k in range(3 if ctx.tier == "quick" else 20):
+            body = synhist.chained(random.Random(ctx.seed * 101 + k), gms, hs, 25, lambda tag: ["result " + tag, "json " + tag + " 0 0"], scfg)
+            cases.append(("changing-answers#%d" % len(cases), ["mark __case__"] + body))
     by_id = dict(cases)
     # one process per tour, leak detection on: "after the last reference is released every allocation has been freed"
     chunks, crashes = decmatrix.run_cases(ctx, drv, cases, per_proc=1, split_on_mark="__case__", leaks=True, timeout=300)
